@@ -1095,11 +1095,16 @@ class FusedBlockwiseLayer:
         # chunk size differs from block 0's. Probe the first block of every distinct
         # chunk size per axis (O(distinct sizes), not O(blocks)), so an irregular
         # interior block cannot slip between the fixed sample positions.
-        try:
-            chunks = self.expr.chunks
-        except Exception:
-            chunks = ()
-        if len(chunks) == len(numblocks):
+        # The output's chunks need not show it: a reduction's per-block step fused
+        # with the creation op has unit chunks whatever the creation op's are, so
+        # the chunks of every fused member are consulted.
+        for member in (self.expr, *getattr(self.expr, "exprs", ())):
+            try:
+                chunks = member.chunks
+            except Exception:
+                continue
+            if len(chunks) != len(numblocks):
+                continue
             for i, dim in enumerate(chunks):
                 seen_sizes = set()
                 for j, c in enumerate(dim):
